@@ -102,6 +102,10 @@ func (r *returnsRunner) execute(cmd *cobra.Command, args []string) error {
 	// the report is written only if the whole journal could be processed
 	var report bytes.Buffer
 	err = j.Build().Process(
+		// flows are accumulated as floating point numbers transaction by
+		// transaction: process the transactions of a day in a fixed order, not in
+		// the order in which the files happened to be loaded
+		journal.Sort(),
 		journal.ComputePrices(valuation),
 		check.Check(),
 		journal.Valuate(reg, valuation),
